@@ -226,6 +226,6 @@ def run(ctx):
 
 def replay(rec):
     print(json.dumps(rec, indent=1)[:2000])
-    ctx = core.Ctx('C13', 'quick', 0)
+    ctx = core.Ctx('C13', rec.get('tier', 'quick'), 0)
     run(ctx)
     return rec['key'] not in ctx._viol
